@@ -262,6 +262,22 @@ def c_tsapply(x1, x2, magic, v1=None, v2=None):
     return px, pv
 
 
+# A statistic object is re-used by the compiled glue for every voxel and every relabelling: what it returns must be
+# a function of the data it is given, not of what it evaluated before.  Every wrapper below therefore evaluates the
+# data twice: on a fresh object, and on a second object that has first been used on other data (the same block
+# reversed and magnified); a difference is recorded here and turned into an oracle failure by `run_case`.
+REUSE_MISMATCH = []
+
+
+def _prime(a):
+    a = np.asarray(a, dtype=float)
+    return np.ascontiguousarray(a[::-1] * 1024.0 + 3.0)
+
+
+def _same_float(a, b):
+    return a == b or (a != a and b != b)
+
+
 def c_os(stat, x, base):
     x = np.ascontiguousarray(x, dtype=float)
     L = _lib()
@@ -269,6 +285,14 @@ def c_os(stat, x, base):
     v = _vec(x)
     t = L.fff_onesample_stat_eval(s, C.byref(v))
     L.fff_onesample_stat_delete(s)
+    s = L.fff_onesample_stat_new(x.size, OS_FLAGS[stat], float(base))
+    xp = _prime(x); vp = _vec(xp)
+    L.fff_onesample_stat_eval(s, C.byref(vp))
+    t2 = L.fff_onesample_stat_eval(s, C.byref(v))
+    L.fff_onesample_stat_delete(s)
+    if not _same_float(t, t2):
+        REUSE_MISMATCH.append(f"fff_onesample_stat ({stat}, base={base}): {t!r} on a fresh object, {t2!r} on an object "
+                              f"that had evaluated other data before (x={x.tolist()})")
     return t
 
 
@@ -288,6 +312,17 @@ def c_osmfx(stat, x, var, base, niter):
     vx, vv = _vec(x), _vec(var)
     t = L.fff_onesample_stat_mfx_eval(s, C.byref(vx), C.byref(vv))
     L.fff_onesample_stat_mfx_delete(s)
+    s = L.fff_onesample_stat_mfx_new(x.size, OS_FLAGS[stat], float(base))
+    s.contents.niter = niter
+    xp, vp = _prime(x), np.ascontiguousarray(var[::-1] * 4.0 + 0.5)
+    wx, wv = _vec(xp), _vec(vp)
+    L.fff_onesample_stat_mfx_eval(s, C.byref(wx), C.byref(wv))
+    t2 = L.fff_onesample_stat_mfx_eval(s, C.byref(vx), C.byref(vv))
+    L.fff_onesample_stat_mfx_delete(s)
+    if not _same_float(t, t2):
+        REUSE_MISMATCH.append(f"fff_onesample_stat_mfx ({stat}, base={base}, niter={niter}): {t!r} on a fresh object, "
+                              f"{t2!r} on an object that had evaluated other data before (x={x.tolist()}, "
+                              f"var={var.tolist()})")
     return t
 
 
@@ -311,6 +346,14 @@ def c_ts(stat, px, n1):
     v = _vec(px)
     t = L.fff_twosample_stat_eval(s, C.byref(v))
     L.fff_twosample_stat_delete(s)
+    s = L.fff_twosample_stat_new(n1, px.size - n1, TS_FLAGS[stat])
+    pp = _prime(px); vp = _vec(pp)
+    L.fff_twosample_stat_eval(s, C.byref(vp))
+    t2 = L.fff_twosample_stat_eval(s, C.byref(v))
+    L.fff_twosample_stat_delete(s)
+    if not _same_float(t, t2):
+        REUSE_MISMATCH.append(f"fff_twosample_stat ({stat}, n1={n1}): {t!r} on a fresh object, {t2!r} on an object that "
+                              f"had evaluated other data before (x={px.tolist()})")
     return t
 
 
@@ -322,6 +365,16 @@ def c_tsmfx(px, pv, n1, niter):
     a, b = _vec(px), _vec(pv)
     t = L.fff_twosample_stat_mfx_eval(s, C.byref(a), C.byref(b))
     L.fff_twosample_stat_mfx_delete(s)
+    s = L.fff_twosample_stat_mfx_new(n1, px.size - n1, TS_FLAGS["student_mfx"])
+    s.contents.niter = niter
+    pp, pq = _prime(px), np.ascontiguousarray(pv[::-1] * 4.0 + 0.5)
+    wa, wb = _vec(pp), _vec(pq)
+    L.fff_twosample_stat_mfx_eval(s, C.byref(wa), C.byref(wb))
+    t2 = L.fff_twosample_stat_mfx_eval(s, C.byref(a), C.byref(b))
+    L.fff_twosample_stat_mfx_delete(s)
+    if not _same_float(t, t2):
+        REUSE_MISMATCH.append(f"fff_twosample_stat_mfx (n1={n1}, niter={niter}): {t!r} on a fresh object, {t2!r} on an "
+                              f"object that had evaluated other data before (x={px.tolist()}, var={pv.tolist()})")
     return t
 
 
@@ -749,7 +802,14 @@ class C17(PropertyCheck):
     # ------------------------------------------------------------------
     def run_case(self, case):
         warnings.filterwarnings("ignore")
-        return getattr(self, "_" + case["kind"])(case)
+        del REUSE_MISMATCH[:]
+        r = getattr(self, "_" + case["kind"])(case)
+        if REUSE_MISMATCH:
+            if r.get("oracle") is None:
+                r["oracle"] = "statistic depends on what the object evaluated before: " + REUSE_MISMATCH[0]
+            r["tags"] = list(r.get("tags", [])) + ["object-reuse-mismatch"]
+            del REUSE_MISMATCH[:]
+        return r
 
     # ---- relabellings ---------------------------------------------------
     def _signs(self, c):
